@@ -6,8 +6,8 @@ from props import hc_common as H
 from gen_hc import Sim, Net, pick_cfg, random_traffic, pick_len
 
 PROP = "C13"
-LAKE_TARGETS = ["Uflow.Props.C13", "Uflow.Props.C13Bound", "Uflow.Props.C13Ep", "uflow_driver"]
-PROPS_FILES = ["C13", "C13Bound", "C13Ep"]
+LAKE_TARGETS = ["Uflow.Props.C13", "Uflow.Props.C13Bound", "Uflow.Props.C13Ep", "Uflow.Props.C13Cli", "uflow_driver"]
+PROPS_FILES = ["C13", "C13Bound", "C13Ep", "C13Cli"]
 TRUSTED_BASE = [
     "Lean 4.33 kernel; axioms per theorem under coverage.axioms",
     "tools/extract_consts.py",
